@@ -39,12 +39,33 @@ structure SimpleLeafClass (env : Env) (d : ClassDef) : Prop where
   concrete : d.abstract = false
   noSub : env.directSubclasses d.name = []
 
-/-- a path of registered direct-subclass steps from `base` down to `c`, along which every class has
-exactly one registered direct subclass (the next one on the path): `k` steps -/
-inductive Chain (env : Env) : String → String → Nat → Prop
-  | here (c : String) : Chain env c c 0
+/-- a parameter of another class, as seen from a mapping that carries exactly the keys `lp.map name` (the
+leaf class's parameters): present with the very type the leaf declares, or absent and optional -/
+def ParamPasses (lp : List Param) (q : Param) : Prop :=
+  (∃ p ∈ lp, p.name = q.name ∧ p.ty = q.ty) ∨
+  (q.required = false ∧ q.name ∉ lp.map (·.name) ∧ dashed q.name ∉ lp.map (·.name))
+
+/-- the class does not accept such a mapping: it is abstract, or one of its required parameters is missing
+(and the parameters before that one pass) -/
+def ClassRejects (lp : List Param) (sd : ClassDef) : Prop :=
+  sd.abstract = true ∨ ∃ pre prm post, sd.params = pre ++ prm :: post ∧ prm.required = true ∧
+    prm.name ∉ lp.map (·.name) ∧ dashed prm.name ∉ lp.map (·.name) ∧ ∀ q ∈ pre, ParamPasses lp q
+
+/-- the class `s` and every registered class below it reject such a mapping; `H` bounds the height -/
+inductive SubtreeRejects (env : Env) (lp : List Param) : String → Nat → Prop
+  | mk (s : String) (sd : ClassDef) (h H : Nat) : env.find s = some sd → sd.recognize = none → sd.kind = .plain →
+      ClassRejects lp sd → (∀ t ∈ env.directSubclasses s, SubtreeRejects env lp t.name h) → h < H →
+      SubtreeRejects env lp s H
+
+/-- a path of registered direct-subclass steps from `base` down to `c`: at every class on the way, the
+next class of the path is among the registered direct subclasses and the subtrees of the other ones
+reject the mapping (`lp`: the parameters of the leaf class `c`); `k` steps -/
+inductive Chain (env : Env) (lp : List Param) (H : Nat) : String → String → Nat → Prop
+  | here (c : String) : Chain env lp H c c 0
   | step (base mid c : String) (k : Nat) (bd md : ClassDef) : env.find base = some bd →
-      env.directSubclasses base = [md] → md.name = mid → Chain env mid c k → Chain env base c (k + 1)
+      md ∈ env.directSubclasses base → md.name = mid →
+      (∀ s ∈ env.directSubclasses base, s.name ≠ mid → SubtreeRejects env lp s.name H) →
+      Chain env lp H mid c k → Chain env lp H base c (k + 1)
 
 /-- the registered bases above a class, one per level, none of them with a `_yatiml_savorize`: `j` levels -/
 inductive UpChain (env : Env) : ClassDef → Nat → Prop
@@ -135,7 +156,7 @@ inductive HasTyE (K : Nat) (env : Env) : Ty → PyVal → Prop
       HasTyE K env (.cls d.name)
         (.obj d.name (PyKVs.ofList (mainKw ++ [(strKey "_yatiml_extra", .dict (PyKVs.ofList extraKw))])))
   | objUp (base : String) (d : ClassDef) (kw : PyKVs) (k j : Nat) : HierLeaf env d →
-      Chain env base d.name k → k ≤ K → UpChain env d j → j ≤ K →
+      Chain env d.params K base d.name k → k ≤ K → UpChain env d j → j ≤ K →
       (base = d.name ∨ d.ancestors.contains base = true) →
       kw.toList.map (·.1) = d.params.map (fun p => strKey p.name) →
       (∀ e ∈ kw.toList, ∀ prm ∈ d.params, e.1 = strKey prm.name → HasTyE K env prm.ty e.2) →
@@ -160,7 +181,7 @@ mutual
 def need (K : Nat) : PyVal → Nat
   | .list xs => 3 + needL K xs
   | .dict kvs => 3 + needK K kvs
-  | .obj _ kw => 4 + K + needK K kw
+  | .obj _ kw => 4 + K + K + needK K kw
   | _ => 3
 def needL (K : Nat) : PyVals → Nat
   | .nil => 0
@@ -554,6 +575,13 @@ theorem needK_ofList_mem (K : Nat) (l : List (PyVal × PyVal)) (e : PyVal × PyV
     need K e.2 ≤ needK K (PyKVs.ofList l) :=
   needK_mem K (PyKVs.ofList l) e (by rw [PyKVs.toList_ofList]; exact he)
 
+def Rejects (r : RecRes) : Prop := ∃ l, r = .ok ([], l)
+theorem rejects_recFail (m : List Mark) (k : List String) : Rejects (recFail m k) := ⟨_, rfl⟩
+
+theorem unionT_nil_single (R : Ty) : unionT [] [R] = [R] := by simp [unionT, insertT]
+theorem unionT_single_single (R : Ty) : unionT [R] [R] = [R] := by simp [unionT, insertT]
+theorem unionT_nil_right (a : List Ty) : unionT a [] = a := by simp [unionT]
+
 /-! ### hierarchies: a leaf class reached through single-subclass steps -/
 
 /-- recognising the mapping of a leaf object as its class, at the level of `__recognize_user_classes` -/
@@ -570,30 +598,176 @@ theorem recognize_classes_leaf (env : Env) (d : ClassDef) (L : HierLeaf env d) (
     Pairs.toList_ofList, hattrs, recOk, finishClasses, List.length_singleton, Node.tag, tMap_yaml]
   simp
 
-/-- … and then as that class through every base on the chain: the one registered subclass matched, so the
-base itself is not tried -/
-theorem recognize_chain (env : Env) (n : Node) (c : String) (b : Nat) (hn : n.tag = tMap)
-    (hleaf : ∀ top, recognizeReq env (b + 1) n (.classes c top) = .ok ([.cls c], [okLeaf])) :
-    ∀ (base : String) (k : Nat), Chain env base c k → ∀ top,
-      recognizeReq env (b + 1 + k) n (.classes base top) = .ok ([.cls c], [okLeaf]) := by
+/-! siblings: the subtrees next to the path reject the mapping -/
+
+theorem hasKey_iff_names (ps : List (Node × Node)) (names : List String)
+    (hk : ps.map (·.1) = names.map (fun nm => Node.scalar tStr nm gen)) (x : String) :
+    hasKey ps x = true ↔ x ∈ names := by
+  unfold hasKey
+  have : ps.any (fun p => p.1.keyIs x) = (ps.map (·.1)).any (fun k => k.keyIs x) := by
+    simp [List.any_map, Function.comp_def]
+  rw [this, hk]
+  simp only [List.any_map, Function.comp_def, keyIs_scalar, List.any_eq_true, beq_iff_eq]
+  constructor
+  · rintro ⟨y, hy, rfl⟩; exact hy
+  · intro h; exact ⟨x, h, rfl⟩
+
+/-- the facts about the mapping of a leaf object that the sibling analysis uses -/
+structure LeafMap (env : Env) (lp : List Param) (ps : List (Node × Node)) (c0 : Nat) : Prop where
+  keys : ps.map (·.1) = (lp.map (·.name)).map (fun nm => Node.scalar tStr nm gen)
+  dist : KeysDistinct ps
+  vals : ∀ prm ∈ lp, ∃ p ∈ ps, p.1.keyIs prm.name = true ∧ ∀ f, c0 ≤ f → Unique (recognizeReq env f p.2 (.ty prm.ty))
+
+theorem recAttr_passes (env : Env) (lp : List Param) (ps : List (Node × Node)) (c0 f : Nat) (hf : c0 ≤ f)
+    (M : LeafMap env lp ps c0) (n : Node) (q : Param) (hq : ParamPasses lp q) :
+    recAttr (fun x U => recognizeReq env f x (.ty U)) n ps q = .ok none := by
+  rcases hq with ⟨p, hp, hname, hty⟩ | ⟨hopt, h1, h2⟩
+  · obtain ⟨pr, hpr, hk, hu⟩ := M.vals p hp
+    rw [hname] at hk
+    have h1 := hasKey_of_mem ps q.name pr hpr hk
+    have h2 := valuesOf_distinct ps q.name pr M.dist hpr hk
+    obtain ⟨R, l, hr⟩ := hu f hf
+    rw [hty] at hr
+    simp [recAttr, tryAttrName, h1, h2, hr]
+  · have k1 : hasKey ps q.name = false := by
+      cases hh : hasKey ps q.name
+      · rfl
+      · exact absurd ((hasKey_iff_names ps _ M.keys q.name).mp hh) h1
+    have k2 : hasKey ps (dashed q.name) = false := by
+      cases hh : hasKey ps (dashed q.name)
+      · rfl
+      · exact absurd ((hasKey_iff_names ps _ M.keys (dashed q.name)).mp hh) h2
+    simp [recAttr, tryAttrName, k1, k2, hopt]
+
+theorem recAttrs_rejects (env : Env) (lp : List Param) (ps : List (Node × Node)) (c0 f : Nat) (hf : c0 ≤ f)
+    (M : LeafMap env lp ps c0) (n : Node) (prm : Param) (post : List Param) (hreq : prm.required = true)
+    (h1 : prm.name ∉ lp.map (·.name)) (h2 : dashed prm.name ∉ lp.map (·.name)) :
+    ∀ (pre : List Param), (∀ q ∈ pre, ParamPasses lp q) →
+      ∃ l, recAttrs (fun x U => recognizeReq env f x (.ty U)) n ps (pre ++ prm :: post) = .ok (some l)
+  | [], _ => by
+    have k1 : hasKey ps prm.name = false := by
+      cases hh : hasKey ps prm.name
+      · rfl
+      · exact absurd ((hasKey_iff_names ps _ M.keys prm.name).mp hh) h1
+    have k2 : hasKey ps (dashed prm.name) = false := by
+      cases hh : hasKey ps (dashed prm.name)
+      · rfl
+      · exact absurd ((hasKey_iff_names ps _ M.keys (dashed prm.name)).mp hh) h2
+    simp only [List.nil_append, recAttrs, recAttr, tryAttrName, k1, k2, Bool.false_eq_true, if_false, hreq, if_true]
+    exact ⟨_, rfl⟩
+  | q :: pre, hp => by
+    obtain ⟨l, hl⟩ := recAttrs_rejects env lp ps c0 f hf M n prm post hreq h1 h2 pre
+      (fun x hx => hp x (by simp [hx]))
+    refine ⟨l, ?_⟩
+    simp only [List.cons_append, recAttrs, recAttr_passes env lp ps c0 f hf M n q (hp q (by simp)), hl]
+
+/-- `recSubclasses` when every subclass either recognises the node as `R` or rejects it -/
+theorem recSubclasses_one (recC : ClassDef → RecRes) (R : Ty) :
+    ∀ (ds : List ClassDef) (acc : ClsAcc),
+      (∀ s ∈ ds, (∃ l, recC s = .ok ([R], l)) ∨ Rejects (recC s)) →
+      (acc.types = [] ∨ acc.types = [R]) →
+      ∃ acc', recSubclasses recC ds acc = .ok acc' ∧ (acc'.types = [] ∨ acc'.types = [R]) ∧
+        ((acc.types = [R] ∨ ∃ s ∈ ds, ∃ l, recC s = .ok ([R], l)) → acc'.types = [R]) ∧
+        ((acc.types = [] ∧ ∀ s ∈ ds, Rejects (recC s)) → acc'.types = [])
+  | [], acc, _, ha => ⟨acc, rfl, ha, (fun h => by
+      rcases h with h | ⟨s, hs, _⟩
+      · exact h
+      · cases hs), (fun h => h.1)⟩
+  | s :: ds, acc, hall, ha => by
+    rcases hall s (by simp) with ⟨l, hr⟩ | ⟨l, hr⟩
+    · have hacc1 : unionT acc.types [R] = [R] := by
+        rcases ha with h | h <;> rw [h]
+        · exact unionT_nil_single R
+        · exact unionT_single_single R
+      obtain ⟨acc', h1, h2, h3, _⟩ := recSubclasses_one recC R ds
+        { types := unionT acc.types [R], causes := acc.causes }
+        (fun x hx => hall x (by simp [hx])) (Or.inr hacc1)
+      refine ⟨acc', ?_, h2, fun _ => h3 (Or.inl hacc1), ?_⟩
+      · simp [recSubclasses, hr, h1]
+      · intro ⟨_, hrej⟩
+        obtain ⟨l', hl'⟩ := hrej s (by simp)
+        rw [hr] at hl'; cases hl'
+    · obtain ⟨acc', h1, h2, h3, h4⟩ := recSubclasses_one recC R ds
+        { types := acc.types, causes := acc.causes ++ [l] }
+        (fun x hx => hall x (by simp [hx])) ha
+      refine ⟨acc', ?_, h2, ?_, ?_⟩
+      · simp [recSubclasses, hr, unionT_nil_right, h1]
+      · intro h
+        apply h3
+        rcases h with h | ⟨x, hx, lx, hxr⟩
+        · exact Or.inl h
+        · rcases List.mem_cons.mp hx with rfl | hx'
+          · rw [hr] at hxr; cases hxr
+          · exact Or.inr ⟨x, hx', lx, hxr⟩
+      · intro ⟨h0, hrej⟩
+        exact h4 ⟨h0, fun x hx => hrej x (by simp [hx])⟩
+
+/-- a subtree of classes that reject the mapping: recognition below `s` finds nothing -/
+theorem subtree_rejects (env : Env) (lp : List Param) (ps : List (Node × Node)) (m : Mark) (c0 : Nat)
+    (M : LeafMap env lp ps c0) :
+    ∀ (s : String) (H : Nat), SubtreeRejects env lp s H → ∀ (f : Nat), c0 + H ≤ f → ∀ top,
+      Rejects (recognizeReq env f (.map tMap (Pairs.ofList ps) m) (.classes s top)) := by
+  intro s H h
+  induction h with
+  | mk s sd h H hf hrecog hkind hcr _ hlt ih =>
+    intro f hfuel top
+    obtain ⟨f', rfl⟩ : ∃ f', f = f' + 1 := ⟨f - 1, by omega⟩
+    have hsubs : ∀ t ∈ env.directSubclasses s,
+        (∃ l, recognizeReq env f' (.map tMap (Pairs.ofList ps) m) (.classes t.name false) = .ok ([Ty.any], l)) ∨
+        Rejects (recognizeReq env f' (.map tMap (Pairs.ofList ps) m) (.classes t.name false)) :=
+      fun t ht => Or.inr (ih t ht f' (by omega) false)
+    obtain ⟨acc', h1, _, _, h4⟩ := recSubclasses_one
+      (fun t => recognizeReq env f' (.map tMap (Pairs.ofList ps) m) (.classes t.name false)) Ty.any
+      (env.directSubclasses s) ⟨[], []⟩ hsubs (Or.inl rfl)
+    have hempty : acc'.types = [] := h4 ⟨rfl, fun t ht => ih t ht f' (by omega) false⟩
+    rcases hcr with habs | ⟨pre, prm, post, hparams, hreq, hn1, hn2, hpre⟩
+    · simp only [recognizeReq, hf, h1, hempty, List.length_nil, BEq.rfl, if_true, habs, finishClasses]
+      exact ⟨_, rfl⟩
+    · obtain ⟨l, hl⟩ := recAttrs_rejects env lp ps c0 f' (by omega) M (.map tMap (Pairs.ofList ps) m)
+        prm post hreq hn1 hn2 pre hpre
+      rw [← hparams] at hl
+      cases hab : sd.abstract
+      · simp only [recognizeReq, hf, h1, hempty, List.length_nil, BEq.rfl, if_true, hab, Bool.false_eq_true,
+          if_false, recUserClass, hrecog, hkind, Pairs.toList_ofList, hl, finishClasses]
+        exact ⟨_, rfl⟩
+      · simp only [recognizeReq, hf, h1, hempty, List.length_nil, BEq.rfl, if_true, hab, finishClasses]
+        exact ⟨_, rfl⟩
+
+/-- … and then as that class through every base on the chain: the subclass on the path matched, the other
+subtrees reject, so the base itself is not tried -/
+theorem recognize_chain (env : Env) (lp : List Param) (H : Nat) (ps : List (Node × Node)) (m : Mark) (c : String)
+    (b c0 : Nat) (M : LeafMap env lp ps c0) (hb : c0 + H ≤ b)
+    (hleaf : ∀ top, recognizeReq env (b + 1) (.map tMap (Pairs.ofList ps) m) (.classes c top)
+      = .ok ([.cls c], [okLeaf])) :
+    ∀ (base : String) (k : Nat), Chain env lp H base c k → ∀ top,
+      recognizeReq env (b + 1 + k) (.map tMap (Pairs.ofList ps) m) (.classes base top) = .ok ([.cls c], [okLeaf]) := by
   intro base k h
   induction h with
   | here c => intro top; exact hleaf top
-  | step base mid c k bd md hf hsub hmid _ ih =>
+  | step base mid c k bd md hf hmem hmid hsib _ ih =>
     intro top
     have hmd := ih hleaf false
-    rw [← hmid] at hmd
-    show recognizeReq env (b + 1 + k + 1) n (.classes base top) = _
-    simp only [recognizeReq, hf, hsub, recSubclasses, hmd, unionT, insertT, List.foldl_cons, List.foldl_nil,
-      List.contains_nil, Bool.false_eq_true, if_false, List.nil_append, List.length_singleton,
-      finishClasses, hn, tMap_yaml]
+    have hall : ∀ s ∈ env.directSubclasses base,
+        (∃ l, recognizeReq env (b + 1 + k) (.map tMap (Pairs.ofList ps) m) (.classes s.name false) = .ok ([.cls c], l)) ∨
+        Rejects (recognizeReq env (b + 1 + k) (.map tMap (Pairs.ofList ps) m) (.classes s.name false)) := by
+      intro s hs
+      by_cases hsn : s.name = mid
+      · rw [hsn]; exact Or.inl ⟨_, hmd⟩
+      · exact Or.inr (subtree_rejects env lp ps m c0 M s.name H (hsib s hs hsn) (b + 1 + k) (by omega) false)
+    obtain ⟨acc', h1, _, h3, _⟩ := recSubclasses_one
+      (fun s => recognizeReq env (b + 1 + k) (.map tMap (Pairs.ofList ps) m) (.classes s.name false)) (.cls c)
+      (env.directSubclasses base) ⟨[], []⟩ hall (Or.inl rfl)
+    have hone : acc'.types = [.cls c] := h3 (Or.inr ⟨md, hmem, _, by rw [hmid]; exact hmd⟩)
+    show recognizeReq env (b + 1 + k + 1) (.map tMap (Pairs.ofList ps) m) (.classes base top) = _
+    simp only [recognizeReq, hf, h1, hone, List.length_singleton, finishClasses, Node.tag, tMap_yaml]
     simp
 
-theorem chain_found (env : Env) (base c : String) (k : Nat) (h : Chain env base c k) (d : ClassDef)
+theorem chain_found (env : Env) (lp : List Param) (H : Nat) (base c : String) (k : Nat)
+    (h : Chain env lp H base c k) (d : ClassDef)
     (hd : env.find c = some d) : ∃ bd, env.find base = some bd := by
   cases h with
   | here => exact ⟨d, hd⟩
-  | step _ _ _ _ bd _ hf _ _ _ => exact ⟨bd, hf⟩
+  | step _ _ _ _ bd _ hf _ _ _ _ => exact ⟨bd, hf⟩
 
 /-- savorizing up a chain of hook-free registered bases is the identity, given fuel for its height -/
 theorem savorize_up (env : Env) : ∀ (d : ClassDef) (j : Nat), UpChain env d j → ∀ (f : Nat), j ≤ f → ∀ (n : Node),
@@ -630,7 +804,7 @@ theorem desc_objUp (K : Nat) (env : Env) (denv : DumpEnv) (tbl : List Entry) (hn
     (IH : ∀ (T : Ty) (v : PyVal) (o : RepOut), represent denv g v = .ok o → HasTyE K env T v →
       ∀ f, need K v ≤ f → Desc env tbl f T v o.node)
     (base : String) (d : ClassDef) (kw : PyKVs) (k j : Nat) (L : HierLeaf env d)
-    (hchain : Chain env base d.name k) (hkK : k ≤ K) (hup : UpChain env d j) (hjK : j ≤ K)
+    (hchain : Chain env d.params K base d.name k) (hkK : k ≤ K) (hup : UpChain env d j) (hjK : j ≤ K)
     (hkeys : kw.toList.map (·.1) = d.params.map (fun p => strKey p.name))
     (hvals : ∀ e ∈ kw.toList, ∀ prm ∈ d.params, e.1 = strKey prm.name → HasTyE K env prm.ty e.2)
     (hinit : d.initRaises (scalarArgs kw.toList) = false)
@@ -668,14 +842,16 @@ theorem desc_objUp (K : Nat) (env : Env) (denv : DumpEnv) (tbl : List Entry) (hn
         have ha := repPairs_all2 (represent denv g) kw.toList ps tr hpairs
         -- everything known about one (argument, pair)
         have A : All2 (fun e p => ∃ prm ∈ d.params, e.1 = strKey prm.name ∧ p.1 = .scalar tStr prm.name gen ∧
-            RT env tbl (b + 1 + k) prm.ty e.2 p.2 ∧ RT env tbl b prm.ty e.2 p.2 ∧ need K e.2 ≤ b) kw.toList ps :=
+            RT env tbl (b + 1 + k) prm.ty e.2 p.2 ∧ RT env tbl b prm.ty e.2 p.2 ∧ need K e.2 ≤ b ∧
+            need K e.2 + K ≤ b ∧ ∀ f', need K e.2 ≤ f' → RT env tbl f' prm.ty e.2 p.2) kw.toList ps :=
           all2_imp_mem ha (fun e hem p ⟨⟨ko, hko, hkn⟩, ⟨vo, hvo, hvn⟩⟩ => by
             have : e.1 ∈ kw.toList.map (·.1) := List.mem_map.mpr ⟨e, hem, rfl⟩
             rw [hkeys] at this
             obtain ⟨prm, hprm, hpe⟩ := List.mem_map.mp this
             have hty := hvals e hem prm hprm hpe.symm
             have hnk := needK_mem K kw e hem
-            refine ⟨prm, hprm, hpe.symm, ?_, ?_, ?_, by omega⟩
+            refine ⟨prm, hprm, hpe.symm, ?_, ?_, ?_, by omega, by omega,
+              fun f' hf' => hvn ▸ simple_described prm.ty e.2 vo hvo hty f' hf'⟩
             · rw [← hpe] at hko
               cases g with
               | zero => simp [represent] at hko
@@ -711,8 +887,25 @@ theorem desc_objUp (K : Nat) (env : Env) (denv : DumpEnv) (tbl : List Entry) (hn
           subst hpp
           exact ⟨p, hp, by rw [h2]; simp [keyIs_scalar], rt_unique h4⟩
         have hleaf := recognize_classes_leaf env d L b ps gen hdist hall
-        have hch := recognize_chain env (.map tMap (Pairs.ofList ps) gen) d.name b rfl hleaf base k hchain true
-        obtain ⟨bd, hbd⟩ := chain_found env base d.name k hchain d L.found
+        have M : LeafMap env d.params ps (b - K) :=
+          { keys := hpskeys
+            dist := hdist
+            vals := by
+              intro prm hprm
+              have : strKey prm.name ∈ kw.toList.map (·.1) := by
+                rw [hkeys]; exact List.mem_map.mpr ⟨prm, hprm, rfl⟩
+              obtain ⟨e, he, hek⟩ := List.mem_map.mp this
+              obtain ⟨p, hp, prm', hprm', h1, h2, _, _, _, hnK, hAll⟩ := All2.mem_left A e he
+              have hnm : prm'.name = prm.name := by
+                rw [h1] at hek; simpa [strKey] using hek
+              have hpp : prm' = prm := eq_of_name d.params L.nodup prm' hprm' prm hprm hnm
+              subst hpp
+              exact ⟨p, hp, by rw [h2]; simp [keyIs_scalar], fun f' hf' => rt_unique (hAll f' (by omega))⟩ }
+        have hbK : b - K + K ≤ b := by
+          have := needK_pos K kw
+          omega
+        have hch := recognize_chain env d.params K ps gen d.name b (b - K) M hbK hleaf base k hchain true
+        obtain ⟨bd, hbd⟩ := chain_found env d.params K base d.name k hchain d L.found
         have hreg := find_isRegistered env base bd hbd
         have hrec : recognize env (b + 1 + k + 1) (.map tMap (Pairs.ofList ps) gen) (.cls base)
             = .ok ([.cls d.name], [okLeaf]) := by
@@ -726,7 +919,7 @@ theorem desc_objUp (K : Nat) (env : Env) (denv : DumpEnv) (tbl : List Entry) (hn
           kwEq := by simp [L.noExtra]
           noExtra := fun _ => rfl
           main := by
-            exact all2_imp_mem A (fun e hem p ⟨prm, hprm, h1, h2, h3, _, hn⟩ =>
+            exact all2_imp_mem A (fun e hem p ⟨prm, hprm, h1, h2, h3, _, hn, _⟩ =>
               ⟨prm.name, gen, prm, h1, h2, hprm, rfl, h3,
                 hasTyE_typeMatches K env b prm.ty e.2 hn (hvals e hem prm hprm h1)⟩)
           extra := All2.nil
@@ -1220,8 +1413,6 @@ def NodeIs : Node → NK → Prop
   | .map _ _ _, .map => True
   | _, _ => False
 
-def Rejects (r : RecRes) : Prop := ∃ l, r = .ok ([], l)
-theorem rejects_recFail (m : List Mark) (k : List String) : Rejects (recFail m k) := ⟨_, rfl⟩
 
 /-- a member type does not recognise a node of another kind -/
 theorem reject_member (env : Env) (m' : Ty) (k' k : NK) (n : Node) (b : Nat)
@@ -1261,9 +1452,6 @@ theorem rtcore_kind (env : Env) (tbl : List Entry) (f : Nat) (rt : Ty → PyVal 
     | userStr c s m d' hf hk _ _ => rw [S.found] at hf; cases hf; rw [S.kind] at hk; cases hk
   all_goals (cases hc <;> simp [NodeIs])
 
-theorem unionT_nil_single (R : Ty) : unionT [] [R] = [R] := by simp [unionT, insertT]
-theorem unionT_single_single (R : Ty) : unionT [R] [R] = [R] := by simp [unionT, insertT]
-theorem unionT_nil_right (a : List Ty) : unionT a [] = a := by simp [unionT]
 
 /-- if every member either recognises the node as `R` or rejects it, the accumulated set is `{}` or `{R}`,
 and it is `{R}` as soon as one member recognised the node -/
@@ -1311,11 +1499,11 @@ theorem recUnion_one (rec : Node → Ty → RecRes) (n : Node) (R : Ty) (ms : Li
   have := h3 (Or.inr hone)
   simp [recUnion, h1, this, dropBoolFix_single]
 
-theorem chain_noSub (env : Env) (base c : String) (k : Nat) (h : Chain env base c k)
-    (hs : env.directSubclasses base = []) : c = base := by
+theorem chain_noSub (env : Env) (lp : List Param) (H : Nat) (base c : String) (k : Nat)
+    (h : Chain env lp H base c k) (hs : env.directSubclasses base = []) : c = base := by
   cases h with
   | here => rfl
-  | step _ _ _ _ bd md _ hsub _ _ => rw [hs] at hsub; cases hsub
+  | step _ _ _ _ bd md _ hmem _ _ _ => rw [hs] at hmem; cases hmem
 
 /-- a value typed at a class without registered subclasses is an object of that very class -/
 theorem same_of_noSub (K : Nat) (env : Env) (T : Ty) (v : PyVal) (h : HasTyE K env T v)
@@ -1327,7 +1515,7 @@ theorem same_of_noSub (K : Nat) (env : Env) (T : Ty) (v : PyVal) (h : HasTyE K e
   | objX d mainKw extraKw _ _ _ _ _ _ _ _ => cases h1; cases h2; rfl
   | objUp base' d kw' k j _ hchain _ _ _ _ _ _ _ =>
     cases h1; cases h2
-    exact chain_noSub env base d.name k hchain (hns base rfl)
+    exact chain_noSub env d.params K base d.name k hchain (hns base rfl)
   | str _ => cases h1
   | int _ => cases h1
   | bool _ => cases h1
@@ -1462,7 +1650,8 @@ and value made of plain data (strings, integers, booleans, `None`, floats whose 
 objects of *simple* classes (plain, no hooks, no registered bases or subclasses, not abstract; with or
 without `_yatiml_extra`, whose extra attributes hold plain data), `Optional[...]` positions, Unions whose
 members accept pairwise different kinds of node, and objects of a leaf class declared as one of its
-registered ancestors (reached through single-subclass steps, at most `K` of them), nested to any depth: if the dump side has no
+registered ancestors (at most `K` steps up; the sibling subtrees next to the path reject the mapping, each
+for lack of a required parameter), nested to any depth: if the dump side has no
 `_yatiml_sweeten` hooks, the node tree the representers build loads back — with enough fuel for the
 depth of the value — as exactly that value: same classes, equal attribute values, same list and mapping
 order.  No precondition about recognition: its uniqueness at every node is derived. -/
@@ -1550,7 +1739,7 @@ example : HasTyE 0 envX (.cls "Open")
     · intro e he; simp at he; rcases he with rfl | rfl <;> rfl
     · simp [strKey, keyEq, numKey]
 
--- a hierarchy: `Circle(Shape)`, a `Circle` where a `Shape` is declared
+-- a hierarchy with siblings: `Circle(Shape)` and `Square(Shape)`; a `Circle` where a `Shape` is declared
 def shapeD : ClassDef :=
   { name := "Shape", bases := [], ancestors := [], kind := .plain, abstract := true,
     params := [⟨"name", .str, true, true⟩], argNames := ["name"],
@@ -1559,17 +1748,40 @@ def circleD : ClassDef :=
   { name := "Circle", bases := ["Shape"], ancestors := ["Shape"], kind := .plain, abstract := false,
     params := [⟨"name", .str, true, true⟩, ⟨"radius", .int, true, true⟩], argNames := ["name", "radius"],
     extraTy := none, recognize := none, savorize := none, initRaises := fun _ => false }
-def envH : Env := { registered := [shapeD, circleD], ext := extE }
+def squareD : ClassDef :=
+  { name := "Square", bases := ["Shape"], ancestors := ["Shape"], kind := .plain, abstract := false,
+    params := [⟨"name", .str, true, true⟩, ⟨"side", .int, true, true⟩], argNames := ["name", "side"],
+    extraTy := none, recognize := none, savorize := none, initRaises := fun _ => false }
+def envH : Env := { registered := [shapeD, circleD, squareD], ext := extE }
 
 theorem circleD_leaf : HierLeaf envH circleD :=
   { found := rfl, kind := rfl, recog := rfl, concrete := rfl, noExtra := by decide, noSub := by decide,
     nodup := by decide,
     args := by intro prm hp; simp [circleD] at hp; rcases hp with rfl | rfl <;> decide }
 
+-- `Square` (which has no registered subclasses) rejects a mapping with the keys of a `Circle`: `side` is missing
+theorem square_rejects : SubtreeRejects envH circleD.params "Square" 1 := by
+  refine SubtreeRejects.mk "Square" squareD 0 1 rfl rfl rfl ?_ ?_ (by decide)
+  · refine Or.inr ⟨[⟨"name", .str, true, true⟩], ⟨"side", .int, true, true⟩, [], rfl, rfl, by decide, by decide, ?_⟩
+    intro q hq
+    simp at hq
+    subst hq
+    exact Or.inl ⟨⟨"name", .str, true, true⟩, by simp [circleD], rfl, rfl⟩
+  · intro t ht
+    have : t ∈ ([] : List ClassDef) := ht
+    cases this
+
 example : HasTyE 1 envH (.cls "Shape")
     (.obj "Circle" (PyKVs.ofList [(strKey "name", .scalar (.str "c1")), (strKey "radius", .scalar (.int 2))])) := by
   refine HasTyE.objUp "Shape" circleD _ 1 1 circleD_leaf ?_ (by decide) ?_ (by decide) (Or.inr (by decide)) rfl ?_ rfl
-  · exact Chain.step "Shape" "Circle" "Circle" 0 shapeD circleD rfl (by rfl) rfl (Chain.here "Circle")
+  · refine Chain.step "Shape" "Circle" "Circle" 0 shapeD circleD rfl ?_ rfl ?_ (Chain.here "Circle")
+    · show circleD ∈ [circleD, squareD]; simp
+    · intro s hs hne
+      have : s ∈ [circleD, squareD] := hs
+      simp at this
+      rcases this with rfl | rfl
+      · exact absurd rfl hne
+      · exact square_rejects
   · exact UpChain.step circleD shapeD 0 rfl (by rfl) (UpChain.root shapeD rfl (by rfl))
   · intro e he prm hp hk
     simp [PyKVs.ofList, PyKVs.toList] at he
